@@ -323,7 +323,11 @@ func RunParent(id, tier string) int {
 		path := WriteReplay(&v)
 		ok1, d1 := replayInFreshProcess(self, path)
 		ok2, d2 := replayInFreshProcess(self, path)
-		if !ok1 || !ok2 || d1 != d2 {
+		// Both replays must fail again, for the same property and with the same
+		// kind of failure. (The free text may legitimately differ when the
+		// system under test is itself non-deterministic, which is what some
+		// properties are about.)
+		if !ok1 || !ok2 || replayHead(d1) != replayHead(d2) {
 			fmt.Fprintf(os.Stderr, "HARNESS-ERROR: violation did not reproduce identically on replay (%v/%v): %s\n  first: %s\n  second: %s\n", ok1, ok2, path, d1, d2)
 			return 2
 		}
@@ -346,6 +350,14 @@ func RunParent(id, tier string) int {
 	fmt.Printf("%s %s: evaluations=%d nontrivial=%d states=%d transitions=%d validated=%d violations=%d known=%d wall=%.1fs caps=%d\n",
 		id, tier, total.Evaluations, total.Nontrivial, total.States, total.Transitions, total.Validated, nviol, len(knownSeen), time.Since(start).Seconds(), len(total.Caps))
 	return exit
+}
+
+// replayHead is the "property=... kind=..." part of a replay's output.
+func replayHead(s string) string {
+	if i := strings.Index(s, " known="); i >= 0 {
+		return s[:i]
+	}
+	return s
 }
 
 func oneLine(s string, n int) string {
